@@ -1,4 +1,6 @@
-"""Prototype: symbolic evaluation of covfie's index-sequence metaprograms from clang's AST (C20)."""
+"""C20: symbolic evaluation of covfie's index-sequence metaprograms. The rewrite rules are extracted on every run from
+clang's AST of static_permutation.hpp (-Xclang -ast-dump=json); instantiation with symbolic 64-bit sequence elements forks
+on conditional_t; z3 decides the obligations at every leaf (DESIGN.md 3.C20)."""
 import json, re, sys, time, itertools
 from z3 import *
 
@@ -187,25 +189,106 @@ class Ev:
         if r['alias']: return s.ev(parse(r['alias']),env,pc)
         return s.ev(parse(r['bases'][0]),env,pc)
 
-if __name__=='__main__':
-    rules=load_rules(sys.argv[1]); ev=Ev(rules)
-    maxL=int(sys.argv[2]); S=Solver()
-    for L in range(0,maxL+1):
-        xs=[BitVec(f'x{i}',64) for i in range(L)]
-        t=time.time(); leaves=ev.apply('sort_index_sequence',[('seq',xs)],[]); bad=0; unk=0
-        for pc,(k,out) in leaves:
-            # ascending
-            S.push(); S.add(*pc); S.add(Or([UGT(out[i],out[i+1]) for i in range(len(out)-1)]) if len(out)>1 else BoolVal(False))
-            r=S.check(); S.pop(); bad+= r==sat; unk+= r==unknown
-            # permutation: output terms are the input variables, each exactly once
-            ids=sorted(str(o) for o in out)
-            if ids!=sorted(str(x) for x in xs): bad+=1
-        print(f'sort L={L}: leaves={len(leaves)} bad={bad} unknown={unk} queries={ev.nq} {time.time()-t:.2f}s',flush=True)
-    for (a,b) in [(0,0),(1,0),(1,1),(2,2),(3,3),(2,3)]:
-        us=[BitVec(f'u{i}',64) for i in range(a)]; vs=[BitVec(f'v{i}',64) for i in range(b)]
-        t=time.time(); leaves=ev.apply('is_permutation',[('seq',us),('seq',vs)],[]); bad=0
-        oracle=Or([And([us[i]==vs[p[i]] for i in range(a)]) for p in itertools.permutations(range(b))]) if a==b else BoolVal(False)
-        if a==b==0: oracle=BoolVal(True)
-        for pc,(k,val) in leaves:
-            S.push(); S.add(*pc); S.add(val!=oracle); r=S.check(); S.pop(); bad+= r!=unsat
-        print(f'is_permutation {a},{b}: leaves={len(leaves)} bad={bad} {time.time()-t:.2f}s',flush=True)
+
+
+def mval(m, t):
+    return m.eval(t, model_completion=True).as_long()
+
+
+def run_unit(ast_json, kind, a, b):
+    """returns a result dict in the shape of runh.summarize"""
+    t0 = time.time()
+    res = {'failures': [], 'inconclusive': [], 'paths': 0, 'instrs': 0, 'queries': {'sat': 0, 'unsat': 0, 'unknown': 0},
+           'asserts': {}, 'functions': [], 'externals': [], 'traces': [], 'n_failures': 0, 'cuts': 0, 'fp_ops': {}}
+    try:
+        rules = load_rules(ast_json)
+        need = ['concat_index_sequence', 'filter_index_sequence_lt', 'filter_index_sequence_geq', 'sort_index_sequence', 'is_permutation']
+        for n in need:
+            if n not in rules:
+                raise Exception(f'rule extractor: template {n} not found in the AST')
+            for r in rules[n]:
+                if not r['primary'] and r['alias'] is None and not r['bases']:
+                    raise Exception(f'rule extractor: a specialisation of {n} has neither a type alias nor a base class')
+        res['functions'] = sorted(f'{n}[{len(rules[n])} rules]' for n in need)
+        ev = Ev(rules); S = Solver(); S.set('timeout', 120000)
+        def q(pc, extra):
+            S.push(); S.add(*pc); S.add(extra); r = S.check(); m = S.model() if r == sat else None; S.pop()
+            res['queries']['sat' if r == sat else 'unsat' if r == unsat else 'unknown'] += 1
+            return r, m
+        if kind == 'sort':
+            L = a
+            xs = [BitVec(f'x{i}', 64) for i in range(L)]
+            leaves = ev.apply('sort_index_sequence', [('seq', xs)], [])
+            res['paths'] = len(leaves)
+            site = {'reached': len(leaves), 'proved': 0, 'failed': 0, 'unknown': 0, 'witness': None}
+            # the leaves' path conditions must cover every input (no input falls through the specialisations)
+            r, m = q([], And([Not(And(*pc)) if pc else BoolVal(False) for pc, _ in leaves]) if leaves else BoolVal(True))
+            if r != unsat:
+                res['inconclusive'].append('leaf path conditions do not cover all inputs')
+            for pc, (k, out) in leaves:
+                bad = None
+                ids = sorted(str(o) for o in out)
+                if ids != sorted(str(x) for x in xs):
+                    r, m = q(pc, BoolVal(True)); bad = ('output is not a rearrangement of the input', m)
+                elif len(out) > 1:
+                    r, m = q(pc, Or([UGT(out[i], out[i + 1]) for i in range(len(out) - 1)]))
+                    if r == sat: bad = ('output not ascending', m)
+                    elif r != unsat: res['inconclusive'].append('solver unknown at a sort leaf'); site['unknown'] += 1
+                if bad:
+                    site['failed'] += 1
+                    vals = [mval(bad[1], x) for x in xs] if bad[1] is not None else [0] * L
+                    res['failures'].append({'kind': 'C20-SORT', 'what': f'sort_index_sequence<{vals}>: {bad[0]}', 'site': 1,
+                                            'inputs': [{'kind': 'u64', 'name': f'x{i}', 'value': v} for i, v in enumerate(vals)], 'ufs': [],
+                                            'where': None})
+                else:
+                    site['proved'] += 1
+                    if site['witness'] is None:
+                        r, m = q(pc, BoolVal(True))
+                        if m is not None: site['witness'] = {f'x{i}': mval(m, x) for i, x in enumerate(xs)}
+            res['asserts']['1'] = site
+        else:
+            us = [BitVec(f'u{i}', 64) for i in range(a)]; vs = [BitVec(f'v{i}', 64) for i in range(b)]
+            leaves = ev.apply('is_permutation', [('seq', us), ('seq', vs)], [])
+            res['paths'] = len(leaves)
+            site = {'reached': len(leaves), 'proved': 0, 'failed': 0, 'unknown': 0, 'witness': None}
+            if a == b:
+                oracle = Or([And([us[i] == vs[p[i]] for i in range(a)]) for p in itertools.permutations(range(b))]) if a else BoolVal(True)
+            else:
+                oracle = BoolVal(False)
+            for pc, (k, val) in leaves:
+                r, m = q(pc, val != oracle)
+                if r == sat:
+                    site['failed'] += 1
+                    uv = [mval(m, x) for x in us]; vv = [mval(m, x) for x in vs]
+                    got = is_true(m.eval(val, model_completion=True))
+                    res['failures'].append({'kind': 'C20-PERM', 'what': f'is_permutation<{uv},{vv}> is {got}', 'site': 2,
+                                            'inputs': [{'kind': 'u64', 'name': f'u{i}', 'value': v} for i, v in enumerate(uv)] +
+                                                      [{'kind': 'u64', 'name': f'v{i}', 'value': v} for i, v in enumerate(vv)],
+                                            'ufs': [], 'where': None, 'a': a, 'b': b})
+                elif r == unsat:
+                    site['proved'] += 1
+                    if site['witness'] is None:
+                        r2, m2 = q(pc, BoolVal(True))
+                        if m2 is not None: site['witness'] = {str(x): mval(m2, x) for x in us + vs}
+                else:
+                    site['unknown'] += 1; res['inconclusive'].append('solver unknown at an is_permutation leaf')
+            res['asserts']['2'] = site
+        res['instrs'] = ev.nq + res['paths']
+        res['queries']['sat'] += 0
+    except Exception as ex:
+        res['inconclusive'].append(f'template evaluator: {type(ex).__name__}: {ex}')
+    res['n_failures'] = len(res['failures'])
+    res['failures'] = res['failures'][:20]
+    res['verdict'] = 'fail' if res['failures'] else ('inconclusive' if res['inconclusive'] else 'pass')
+    res['wall_s'] = round(time.time() - t0, 2); res['solver_s'] = res['wall_s']
+    return res
+
+
+if __name__ == '__main__':
+    # tmpl.py <ast.json> sort L <out.json>  |  tmpl.py <ast.json> perm A B <out.json>
+    kind = sys.argv[2]
+    if kind == 'sort':
+        r = run_unit(sys.argv[1], 'sort', int(sys.argv[3]), 0); out = sys.argv[4]
+    else:
+        r = run_unit(sys.argv[1], 'perm', int(sys.argv[3]), int(sys.argv[4])); out = sys.argv[5]
+    json.dump(r, open(out, 'w'), default=str)
